@@ -29,7 +29,11 @@ which
 
 Make the three changes as different from each other as you can (different functions, different clauses of the
 property, different mechanisms). Look beyond the first functions that come to mind: also consider helper modules,
-error paths, rarely used options and the less central files named in the property's anchors. Subtle is better than large: 1–10 changed lines each is ideal.
+error paths, rarely used options and the less central files named in the property's anchors. At least one of your changes should be
+of the kind where TWO cooperating sites each look fine alone (a caller and a callee changed consistently with each other but
+inconsistently with a third user; a producer and a consumer of a table, cache, flag or tuple layout), or that needs a
+MULTI-STEP history (a second call, a re-used object, a particular failure at a particular point followed by another operation)
+to manifest. Subtle is better than large: 1–10 changed lines each is ideal.
 
 For each change k = 1, 2, 3 deliver, in the directory `{wt}/_seed/` (create it; it is untracked):
 
